@@ -58,6 +58,21 @@ func run(c *hc.Ctx) {
 		emit(flags)
 	}
 
+	// 1a. FillRule.Fills: the definition translated from source (L1), complete small table + random
+	fillsHook := canvas.VerifFuncs["FillRule.Fills"].(func(canvas.FillRule, int) bool)
+	for r := 0; r <= 4; r++ {
+		for w := -6; w <= 6; w++ {
+			c.Case(fmt.Sprintf("L1 FillRule.Fills %d %d", r, w), "=", hc.B(fillsHook(canvas.FillRule(r), w)))
+			c.Count("l1:FillRule.Fills")
+		}
+	}
+
+	c.Sample("L1 FillRule.Fills 1 3 => " + hc.B(fillsHook(canvas.EvenOdd, 3)))
+
+	// 1b. flat integer polygons: hit lists and whole queries against the exact-arithmetic Lean model,
+	//     CCW / Filling against model and specification
+	runFlat(c)
+
 	// 2. flat polygons: Windings judged by the exact Lean specification, with query points level
 	//    with vertices, on the lines of horizontal edges, and generic
 	for it := 0; it < c.N; it++ {
@@ -282,6 +297,10 @@ func run(c *hc.Ctx) {
 					break
 				}
 			}
+			if !strings.Contains(osfx, "+level-with-endpoint") && tangentExtremum(pt, segs) {
+				osfx = "+tangent-at-extremum" + osfx
+				c.Count("curved-query-tangent-at-extremum")
+			}
 			c.Evals++
 			var w int
 			var bd bool
@@ -305,6 +324,9 @@ func run(c *hc.Ctx) {
 		}
 		// CCW on simple contours: sign of the area of the flattening (only convex-ish single arcs/ellipses)
 	}
+
+	// 4a. Filling with an enclosing contour inside the inner contour's (loose) FastBounds box
+	runHugging(c)
 
 	// 4. CCW and Filling on simple nested shapes
 	for it := 0; it < c.N; it++ {
@@ -416,7 +438,9 @@ func flatClass(p hc.P2, cs [][]hc.P2, open bool) string {
 			}
 		}
 	}
-	if s == "" && coincidentHits(p, cs) {
+	if coincidentHits(p, cs) {
+		// the recorded start-vertex defect takes precedence: by windings_refines_wn_partial a closed flat
+		// subpath can only be misjudged when its start vertex lies on the ray
 		s = "+coincident-hits"
 	}
 	if open {
@@ -591,4 +615,42 @@ func crossingsFloat(p hc.P2, cs [][]hc.P2) int {
 		}
 	}
 	return n
+}
+
+// tangentExtremum: the ray is tangent to a curved segment at an interior point: some curved segment
+// has an interior y-extremum at the ray's height (within 1e-9) to the right of the query point.
+func tangentExtremum(p hc.P2, segs []hc.Seg) bool {
+	const n = 512
+	for _, sg := range segs {
+		if sg.Kind != 'Q' && sg.Kind != 'C' && sg.Kind != 'A' {
+			continue
+		}
+		prev := sg.At(0)
+		cur := sg.At(1.0 / n)
+		for i := 1; i < n; i++ {
+			next := sg.At(float64(i+1) / n)
+			if (cur.Y-prev.Y)*(next.Y-cur.Y) <= 0 {
+				// bracketed extremum of y(t): ternary search on [t(i-1), t(i+1)]
+				lo, hi := float64(i-1)/n, float64(i+1)/n
+				sign := 1.0 // maximise sign*y
+				if cur.Y < prev.Y || cur.Y < next.Y {
+					sign = -1
+				}
+				for k := 0; k < 100; k++ {
+					m1, m2 := lo+(hi-lo)/3, hi-(hi-lo)/3
+					if sign*sg.At(m1).Y < sign*sg.At(m2).Y {
+						lo = m1
+					} else {
+						hi = m2
+					}
+				}
+				e := sg.At((lo + hi) / 2)
+				if math.Abs(e.Y-p.Y) <= 1e-9 && e.X >= p.X-1e-9 && lo > 1e-9 && hi < 1-1e-9 {
+					return true
+				}
+			}
+			prev, cur = cur, next
+		}
+	}
+	return false
 }
